@@ -2682,6 +2682,26 @@ def h_rfftfreq(ev, args, kwargs, fr, node, backend=None):
     return Num(kb / (n * d.expr), kind="quantity" if d.kind == "quantity" else "array", shape=(m,), axes=(kb,), backend=backend)
 
 
+def h_zeros_like(ev, args, kwargs, fr, node, fill=0):
+    """np.zeros_like(a): a new array of a's shape, dtype and back end (through __array_function__, a Dask array gives a Dask array)."""
+    x = args[0]
+    if isinstance(x, ObjV) and "_data" in x.attrs:
+        x = x.attrs["_data"]
+    if isinstance(x, NdArr):
+        out = NdArr(x.shape, [Num(fill) for _ in x.items])
+        out.dtype = kwargs.get("dtype", getattr(x, "dtype", None))
+        return out
+    if not isinstance(x, Num) or x.shape is None:
+        ev.unsupported(f"np.zeros_like({x!r})", node, fr)
+    dt = kwargs.get("dtype", x.dtype)
+    k = len(ev.__dict__.setdefault("fresh_arrays", []))
+    sym = sp.Symbol(f"{'Z' if fill == 0 else 'O'}fill{k}")
+    arr = Num(sym if fill else sp.Integer(0) * sym, kind="array", shape=list(x.shape), dtype=dt, tag="filled", backend=x.backend)
+    arr = Num(sym, kind="array", shape=list(x.shape), dtype=dt, tag="filled", backend=x.backend)
+    ev.fresh_arrays.append((sym, fill, list(x.shape), node))
+    return arr
+
+
 def h_zeros(ev, args, kwargs, fr, node, fill=0):
     shp = args[0]
     dt0 = kwargs.get("dtype", args[1] if len(args) > 1 else None)
@@ -3291,6 +3311,11 @@ def h_quantity(ev, args, kwargs, fr, node, angle=False):
         x = h_array(ev, [x], {}, fr, node)
     if isinstance(x, NdArr):
         return x.map(lambda e: h_quantity(ev, [e] + list(args[1:]), kwargs, fr, node, angle))
+    if isinstance(x, ObjV) and x.cls.name == "Phase" and not isinstance(unit, NoneV):
+        # a Phase is an Angle in cycles: astropy refuses to convert it to a dimensionless (or any non-angular) unit
+        ue_ = unit_of(ev, unit, node)
+        if ue_ == 1 or not sp.sympify(ue_).has(UNITS.get("cycle", sp.Symbol("cycle"))):
+            raise Raised("UnitConversionError", node, "'cycle' (angle) and the requested unit are not convertible")
     if not isinstance(x, Num):
         ev.unsupported(f"Quantity({x!r})", node, fr)
     if isinstance(unit, NoneV):
@@ -3907,6 +3932,8 @@ EXT = {
     "numpy.fft.fftfreq": h_fftfreq, "numpy.fft.rfftfreq": h_rfftfreq,
     "dask.array.fft.rfftfreq": lambda ev, a, k, fr, n: h_rfftfreq(ev, a, k, fr, n, backend="dask"),
     "dask.array.fft.fftfreq": lambda ev, a, k, fr, n: h_fftfreq(ev, a, k, fr, n, backend="dask"),
+    "numpy.zeros_like": lambda ev, a, k, fr, n: h_zeros_like(ev, a, k, fr, n, 0), "numpy.ones_like": lambda ev, a, k, fr, n: h_zeros_like(ev, a, k, fr, n, 1),
+    "numpy.empty_like": lambda ev, a, k, fr, n: h_zeros_like(ev, a, k, fr, n, 0),
     "numpy.zeros": h_zeros, "numpy.ones": lambda ev, a, k, fr, n: h_zeros(ev, a, k, fr, n, fill=1),
     "astropy.time.utils.two_sum": lambda ev, a, k, fr, n: h_two_sum(ev, a, k, fr, n),
     "astropy.time.utils.two_product": lambda ev, a, k, fr, n: h_two_product(ev, a, k, fr, n),
